@@ -416,6 +416,7 @@ void caseHistory(vrt::Case& c)
   if (!defaultStep) nd->setInterval(h);
   nd->setParametersToDerivate(selNames);
   nd->enableSecondOrderCrossDerivatives(cross);
+  vrt::expect(nd->getInterval() == h && nd->enableSecondOrderCrossDerivatives() == cross, "configuration.kept", sname, [&] { return desc + " : getInterval() = " + str(nd->getInterval()); });
 
   vector<double> cur = x0; // model of the wrapped function's parameters
   size_t len = 2 + rng.below(4);
@@ -507,6 +508,12 @@ void caseHistory(vrt::Case& c)
           return desc + " ; " + call + " left the wrapped function at " + pointStr(now) + " instead of " + pointStr(cur) + " (" + str(F->log.size()) + " evaluations)";
         }))
       return; // everything below would be measured at another point
+    {
+      // the wrapper shows the wrapped function's parameters
+      bool through = nd->getNumberOfParameters() == n;
+      for (size_t i = 0; through && i < n; ++i) through = vrt::sameDouble(nd->getParameterValue("v" + str(i)), cur[i]) && vrt::sameDouble(nd->getParameters()[i].getValue(), cur[i]);
+      vrt::expect(through, "transparent.parameters-through-wrapper", ecls, [&] { return desc + " ; " + call + " : the wrapper's own getParameters() differ from " + pointStr(cur); });
+    }
     double want = poly.eval(cur);
     double got = 0;
     vrt::Outcome og = vrt::capture([&] { got = nd->getValue(); });
@@ -599,7 +606,8 @@ void caseHistory(vrt::Case& c)
         vrt::expect(o2.returned() && vrt::close(d2, a2, 1e-13, 0), "delegation.second", dcls, [&] {
               return desc + " ; " + call + " : non-selected d2/d" + vname + "2 = " + (o2.returned() ? str(d2) : o2.text()) + " but the wrapped function's analytic derivative is " + str(a2);
             });
-        for (size_t j = 0; j < n; ++j)
+        // the two- and five-point classes document that they offer no cross derivative at all (the query is refused for any pair)
+        for (size_t j = 0; scheme == THREE && j < n; ++j)
         {
           if (j == i) continue;
           double dx = 0;
